@@ -1,4 +1,4 @@
-package auth_test
+package chain_test
 
 import (
 	"context"
@@ -28,12 +28,50 @@ import (
 //   facts                                  -> minbatch=<n> batched=<ids> ids=<ed>,<secp>,<bls>
 //   block w=<workers> <item>*              item = e|s|b (ed25519|secp256r1|bls) + 1 valid | 0 corrupted signature | 2 other message signed
 //        -> <ok|fail|hang> direct=<n> early=<batch sizes handed out by Add> done=<#closures from Done>:<items not handed out early>
+//   exec w=<workers> <item>*               the block as a real chain block through chain.NewProcessor(...).Execute
+//        (auth.DefaultEngines(), parallel workers; see zz_verif_c16c24_proc_test.go)  -> ok|sigfail|err|hang
 //   overlap w=<workers> <b-before-release|b-after-a> A <item>* B <item>*
 //        two signature jobs on the SAME worker pool: job A (its last item, marked by a trailing g, of an
 //        unbatched type, blocks in Verify until released) is still running when job B is created; B is
 //        submitted before A is released, or after A completed        -> A=<ok|fail|hang> B=<ok|fail|hang>
 // The block is pushed through the code path of Processor.verifySignatures / waitSignatures:
 // workers.NewJob, chain.NewAuthBatch(auth.DefaultEngines()), Add per tx, go Done, job.Wait.
+
+// c16EagerJob is a workers.Job that runs each task when it is submitted (one of the schedules
+// the job contract allows; tasks submitted after a failure are skipped like the pool does).
+type c16EagerJob struct {
+	w    int
+	mu   sync.Mutex
+	err  error
+	done chan struct{}
+}
+
+func (j *c16EagerJob) Go(f func() error) {
+	j.mu.Lock()
+	defer j.mu.Unlock()
+	if j.err != nil {
+		return
+	}
+	if err := f(); err != nil {
+		j.err = err
+	}
+}
+
+func (j *c16EagerJob) Done(f func()) {
+	close(j.done)
+	if f != nil {
+		f()
+	}
+}
+
+func (j *c16EagerJob) Wait() error {
+	<-j.done
+	j.mu.Lock()
+	defer j.mu.Unlock()
+	return j.err
+}
+
+func (j *c16EagerJob) Workers() int { return j.w }
 
 type c16RecBV struct {
 	inner   chain.AuthBatchVerifier
@@ -319,6 +357,17 @@ func (s *c16Signer) tx(ty byte, pos int, kind byte) *chain.Transaction {
 	switch kind {
 	case '1':
 		a, err = f.Sign(td.UnsignedBytes())
+	case '3', '4':
+		// small-order public key and R (the identity point, y = 1), S = 0 (kind 3) or S = 1 (kind 4):
+		// under the ZIP-215 rules of ed25519consensus kind 3 verifies for every message and kind 4
+		// never does; single and batch verification must agree on both.
+		e := &auth.ED25519{}
+		e.Signer[0] = 1
+		e.Signature[0] = 1
+		if kind == '4' {
+			e.Signature[32] = 1
+		}
+		a = e
 	case '2':
 		other := append(append([]byte{}, td.UnsignedBytes()...), 0x01)
 		a, err = f.Sign(other)
@@ -355,9 +404,10 @@ func TestVerifC16(t *testing.T) {
 	defer r.Finish()
 	lines := r.ReplayLines()
 	if lines == nil {
-		lines = c16Generate(r)
+		lines = append(c16Generate(r), pv16Generate(r)...)
 	}
 	signer := c16NewSigner(t)
+	var penv *pv16Env // Processor.Execute environment, built on the first `exec` op
 	hangs := 0
 	for _, l := range lines {
 		f := verifh.Fields(l)
@@ -370,15 +420,20 @@ func TestVerifC16(t *testing.T) {
 				}
 			}
 			r.Emit(l, fmt.Sprintf("minbatch=%d batched=%s ids=%d,%d,%d", ed25519.MinBatchSize, strings.Join(batched, ","), auth.ED25519ID, auth.SECP256R1ID, auth.BLSID))
+		case len(f) >= 1 && f[0] == "exec":
+			if penv == nil {
+				penv = newPV16Env(t)
+			}
+			penv.exec(t, r, l, f)
 		case len(f) >= 1 && f[0] == "overlap":
 			if out := c16Overlap(r, t, signer, l, f); out != "" {
 				r.Emit(l, out)
 			}
-		case len(f) >= 2 && f[0] == "block" && strings.HasPrefix(f[1], "w="):
+		case len(f) >= 2 && (f[0] == "block" || f[0] == "blocke") && strings.HasPrefix(f[1], "w="):
 			w, err := strconv.Atoi(f[1][2:])
 			ok := err == nil && w >= 1 && w <= 64
 			for _, it := range f[2:] {
-				if len(it) != 2 || !strings.ContainsRune("esb", rune(it[0])) || !strings.ContainsRune("012", rune(it[1])) {
+				if len(it) != 2 || !strings.ContainsRune("esb", rune(it[0])) || !strings.ContainsRune("01234", rune(it[1])) || (it[1] > '2' && it[0] != 'e') {
 					ok = false
 				}
 			}
@@ -402,7 +457,7 @@ func TestVerifC16(t *testing.T) {
 				}
 			}
 			for i, it := range f[2:] {
-				if (it[1] == '1') != (txs[i].VerifyAuth(context.Background()) == nil) {
+				if (it[1] == '1' || it[1] == '3') != (txs[i].VerifyAuth(context.Background()) == nil) {
 					viol("test-vector-broken", "item %d (%s): individual verification says %v", i, it, txs[i].VerifyAuth(context.Background()))
 				}
 			}
@@ -411,10 +466,17 @@ func TestVerifC16(t *testing.T) {
 			for _, tx := range txs {
 				authCounts[tx.Auth.GetTypeID()]++
 			}
-			pool := workers.NewParallel(w, 4)
-			job, err := pool.NewJob(len(txs))
-			if err != nil {
-				t.Fatal(err)
+			var pool workers.Workers
+			var job workers.Job
+			if f[0] == "blocke" {
+				// an eager schedule: every task runs at the moment it is submitted
+				job = &c16EagerJob{w: w, done: make(chan struct{})}
+			} else {
+				pool = workers.NewParallel(w, 4)
+				job, err = pool.NewJob(len(txs))
+				if err != nil {
+					t.Fatal(err)
+				}
 			}
 			eng := &c16Engines{inner: auth.DefaultEngines(), recs: map[uint8]*c16RecBV{}}
 			bv := chain.NewAuthBatch(logging.NoLog{}, eng, job, authCounts)
@@ -437,7 +499,9 @@ func TestVerifC16(t *testing.T) {
 				} else {
 					status = "fail"
 				}
-				go pool.Stop()
+				if pool != nil {
+					go pool.Stop()
+				}
 			case <-time.After(to):
 				status = "hang"
 				hangs++
@@ -552,6 +616,27 @@ func c16Generate(r *verifh.Run) []string {
 		}
 		out = append(out, strings.TrimSpace(fmt.Sprintf("overlap w=%d %s A %s B %s", w, mode, strings.Join(a, " "), strings.Join(b, " "))))
 	}
+	// eager schedule: counts whose remainder modulo the batch size is 1..3, invalid signature in the tail
+	for _, w := range []int{2, 3, 4, 8, 16} {
+		for _, n := range []int{5, 6, 7, 9, 11, 4*w + 1, 4*w + 2, 8*w + 1, 8*w + 3, 6 * w, 6*w + 1} {
+			if n > 140 {
+				continue
+			}
+			out = append(out, "blocke"+c16Line(w, rep("e1", n))[5:])
+			for _, p := range []int{n - 1, n - 2, n - 3, 0} {
+				if p >= 0 {
+					it := rep("e1", n)
+					it[p] = "e0"
+					out = append(out, "blocke"+c16Line(w, it)[5:])
+				}
+			}
+		}
+	}
+	for _, w := range []int{1, 2, 4} {
+		out = append(out, c16Line(w, []string{"e3"}), c16Line(w, []string{"e4"}),
+			c16Line(w, []string{"e1", "e3", "e1", "e1", "e3"}), c16Line(w, []string{"e1", "e1", "e4", "e1", "e1", "e1", "e3", "e1", "e1"}),
+			"blocke"+c16Line(w, []string{"e3", "e3", "e3", "e3", "e4"})[5:])
+	}
 	nrand := r.N(500, 12000)
 	for i := 0; i < nrand; i++ {
 		w := 1 + r.RNG.Intn(16)
@@ -594,7 +679,11 @@ func c16Generate(r *verifh.Run) []string {
 			}
 			items[p] = items[p][:1] + k
 		}
-		out = append(out, c16Line(w, items))
+		if r.RNG.Chance(25) {
+			out = append(out, "blocke"+c16Line(w, items)[5:])
+		} else {
+			out = append(out, c16Line(w, items))
+		}
 	}
 	return out
 }
